@@ -234,6 +234,16 @@ pub fn sched_point(label: &'static str) {
     }
 }
 
+/// Calls sched_point(label) when dropped: a scheduling point *after* a tail expression, without
+/// rewriting the expression.
+pub struct SchedOnDrop(pub &'static str);
+
+impl Drop for SchedOnDrop {
+    fn drop(&mut self) {
+        sched_point(self.0);
+    }
+}
+
 // ---------------------------------------------------------------------------------------------
 // Clock
 
